@@ -19,6 +19,7 @@ class Plan:
         self.extra_tlc = []       # [(spec dir, module, cfg, expected violation or None)] additional small specs
         self.scenarios = []       # names in tm_scenarios.ALL: directed schedules followed by TLC and replayed
         self.ticker = False       # replay the state graph of Ticker.tla on the real timeoutTicker
+        self.rotate_wal = 0       # number of random RotateWAL pseudo steps per behaviour (plus one before most crashes)
         self.live_runs = []       # [(Cfg, heights, runs)] real-goroutine executions recorded and validated by TLC
 
 
@@ -37,6 +38,20 @@ def add_pseudo(ctx, traces, plan):
                 if rec is None:
                     continue
                 t['steps'].insert(k + 1, {'a': 'RealStartProbe', 'args': [n], 'post': t['steps'][k]['post']})
+        if getattr(plan, 'rotate_wal', 0):
+            # the WAL's head file is rotated away (autofile size check) a few inputs before a crash of that node, and at
+            # random other points: invisible to the specification, so the expected state is the one of the step before
+            crash_at = [(k, st['args'][0]) for k, st in enumerate(t['steps']) if st['a'] in ('Crash', 'CrashTorn')]
+            ins = []
+            for k, n in crash_at:
+                if ctx.rng.random() < 0.7:
+                    ins.append((ctx.rng.randrange(max(0, k - 8), k + 1), n))
+            for _ in range(plan.rotate_wal):
+                ins.append((ctx.rng.randrange(len(t['steps'])), ctx.rng.choice(honest)))
+            for k, n in sorted(ins, reverse=True):
+                if k == 0:
+                    continue
+                t['steps'].insert(k, {'a': 'RotateWAL', 'args': [n], 'post': t['steps'][k - 1]['post']})
         if plan.drain:
             t['steps'].append({'a': 'Drain', 'args': [cfg['MaxHeight'], plan.drain], 'post': t['steps'][-1]['post']})
 
